@@ -39,6 +39,9 @@ func (t *XMPPTransport) Connect() (string, error) {
 	if err != nil {
 		return "", NewConnError(err, true)
 	}
+	if verifEnabled {
+		t.conn = verifWrapConn(t.conn)
+	}
 
 	t.closeChan = make(chan stanza.StreamClosePacket)
 	t.readWriter = newStreamLogger(t.conn, t.logFile)
@@ -145,6 +148,9 @@ func (t *XMPPTransport) Close() error {
 	case <-time.After(time.Duration(t.Config.ConnectTimeout) * time.Second):
 	}
 
+	if verifEnabled {
+		vpoint("transport.preclose")
+	}
 	if t.conn != nil {
 		return t.conn.Close()
 	}
